@@ -302,6 +302,7 @@ func (n *Nodis) addBlockKey(key string, c chan string) {
 }
 
 func (n *Nodis) notifyBlockingKey(key string) {
+	verifPoint("b:notify")
 	// the registry stays read-locked while the channels are used: a departing client closes
 	// its channel under the write lock
 	n.blockingKeysMutex.RLock()
@@ -321,6 +322,7 @@ func (n *Nodis) notifyBlockingKey(key string) {
 }
 
 func (n *Nodis) removeBlockingKeys(rc chan string, keys ...string) {
+	verifPoint("b:dereg")
 	n.blockingKeysMutex.Lock()
 	for _, key := range keys {
 		cList, ok := n.blockingKeys.Get(key)
@@ -355,20 +357,26 @@ func (n *Nodis) blockingPop(timeout time.Duration, pop func(key string, count in
 	var c = make(chan string, 1)
 	defer n.removeBlockingKeys(c, keys...)
 	for _, key := range keys {
+		verifPoint("b:reg")
 		n.addBlockKey(key, c)
 	}
 	// a timeout of zero blocks until an element arrives
 	var timer <-chan time.Time
 	if timeout != 0 {
 		timer = time.After(timeout)
+		if vt := verifTimer(timeout); vt != nil {
+			timer = vt
+		}
 	}
 	for {
 		for _, key := range keys {
+			verifPoint("b:try")
 			results := pop(key, 1)
 			if results != nil {
 				return key, results[0]
 			}
 		}
+		verifPoint("b:select")
 		select {
 		case <-c:
 		case <-timer:
